@@ -373,6 +373,16 @@ func TestVerifC12Smoke(t *testing.T) {
 	}
 	fmt.Printf("3 pipelines built in %v; handlers: %v\n", time.Since(t1), w.pipe(h_rpipe.Config{Mode: "off", Budget: vkTiny}).HandlerNames())
 	cfgs := []h_rpipe.Config{{Mode: "off"}, {Mode: "off", QMin: 5}, {Mode: "shadow", Budget: vkTiny}, {Mode: "enforce", Budget: vkTiny}, {Mode: "enforce"}}
+	if v := os.Getenv("VERIF_SMOKE_OUT"); v != "" {
+		var n uint32
+		fmt.Sscan(v, &n)
+		cfgs = append(cfgs, h_rpipe.Config{Mode: "enforce", Budget: h_rpipe.Budget{Out: n}})
+	}
+	if os.Getenv("VERIF_SMOKE_QMIN") != "" {
+		for i := range cfgs {
+			cfgs[i].QMin = 5
+		}
+	}
 	if os.Getenv("VERIF_SMOKE_V6") != "" {
 		cfgs = []h_rpipe.Config{{Mode: "shadow", Budget: vkTiny, IPv6: true}, {Mode: "enforce", IPv6: true}}
 	}
